@@ -133,6 +133,9 @@ def retry(
         for attempt in it.count(start=1):
             try:
                 response = func(*args, **kwargs)
+                if response is None:  # a notification has no response to examine
+                    return response
+
                 if response.is_error and retry_strategy.codes and response.get_error().code in retry_strategy.codes:
                     delay = next(delays, None)
                     if delay is not None:
@@ -173,6 +176,9 @@ def retry_async(
         for attempt in it.count(start=1):
             try:
                 response = await func(*args, **kwargs)
+                if response is None:  # a notification has no response to examine
+                    return response
+
                 if response.is_error and retry_strategy.codes and response.get_error().code in retry_strategy.codes:
                     delay = next(delays, None)
                     if delay is not None:
